@@ -176,6 +176,21 @@ def no_negative_event_stored(ctx, rule):
             continue
       conds = [(t, p) for t, p in U.path_conditions(fn, st, stop_at=lp) if any(norm_text(x) == stored for x in ast.walk(t))]
       r = scenario.tv_all(conds, scenario.subst_of([(stored, '-1')])) if conds else True
+      # the store may come first and the rejection right after it, on the stored field itself: the sequence being edited is the
+      # function's own copy, so a raise after the store still returns nothing
+      tgt_txt = norm_text(st.targets[0])
+      blk = next((b for b in U.blocks(fn) if any(x is st for x in b)), [])
+      after = blk[[i for i, x in enumerate(blk) if x is st][0] + 1:] if blk else []
+      rejected_after = False
+      for nx in after:
+        if isinstance(nx, ast.If) and any(isinstance(x, ast.Raise) for x in nx.body) and scenario.tv(nx.test, scenario.subst_of([(tgt_txt, '-1'), (stored, '-1')])) is True:
+          rejected_after = True
+          break
+        if any(isinstance(t_, ast.Attribute) and norm_text(t_) == tgt_txt for s2 in ast.walk(nx) if isinstance(s2, ast.stmt) for t_, _v, _o in U.store_targets(s2)):
+          break
+      if r is not False and rejected_after:
+        ctx.ob(rule, fi, st, True, 'the stored value is tested right after the store (%s < 0 raises): a negative time never leaves the function' % tgt_txt, construct=cons)
+        continue
       if r is False:
         ctx.ob(rule, fi, st, True, '%s is unreachable with %s == -1' % (norm_text(st), stored), construct=cons)
       elif r is True:
@@ -706,7 +721,7 @@ MUTANTS = [
            "  for events in [\n      fixed_sequence.time_signatures, fixed_sequence.key_signatures,\n      fixed_sequence.tempos\n  ]:", "  for events, value_fields in [\n      (fixed_sequence.time_signatures, ('numerator', 'denominator')),\n      (fixed_sequence.key_signatures, ('key', 'mode')),\n      (fixed_sequence.tempos, ('qpm',))\n  ]:", expect='silent',
            also=[(F, "      tmp_ts = copy.deepcopy(events[i])\n      tmp_ts.time = events[i - 1].time\n", ""), (F, "      if tmp_ts == events[i - 1]:", "      if all(getattr(events[i], field) == getattr(events[i - 1], field) for field in value_fields):")]),
     Mutant('seed C13_b: the original event time is tested for negativity, the mapped one is stored', F, "    time = time_func(event.time)\n    if time < 0:", "    time = time_func(event.time)\n    if event.time < 0:", rule='ADJUST/event-negative'),
-    Mutant('the event store precedes the check', F, "    time = time_func(event.time)\n    if time < 0:", "    time = time_func(event.time)\n    event.time = time\n    if time < 0:", rule='ADJUST/'),
+    Mutant('the event store precedes the check (harmless: the edited sequence is the function\'s own copy and the raise follows)', F, "    time = time_func(event.time)\n    if time < 0:", "    time = time_func(event.time)\n    event.time = time\n    if time < 0:", expect='silent', lenient=True),
     Mutant('shift: pitch_bends dropped from the chain', F, '      shifted.pitch_bends, shifted.control_changes, shifted.text_annotations,\n      shifted.section_annotations',
            '      shifted.control_changes, shifted.text_annotations,\n      shifted.section_annotations', rule='UNIFORM/shift'),
     Mutant('shift: section_annotations dropped', F, 'shifted.text_annotations,\n      shifted.section_annotations\n  ]', 'shifted.text_annotations\n  ]', rule='UNIFORM/shift'),
